@@ -88,7 +88,7 @@ Npt ==
          distinct == both /\ ~FClose(E.vapor.rho, E.liquid.rho, "1e-6", FAbs(E.liquid.rho), "0")
          gdiff == both /\ ~FClose(E.vapor.g, E.liquid.g, "1e-9", FAdd(FAbs(E.vapor.g), FAbs(E.liquid.g)), "1e-9")
          stable == IF FLt(E.vapor.g, E.liquid.g) THEN E.vapor ELSE E.liquid
-         inDomain == FLe(E.Tr, "1.65") /\ FLe(E.pr, "10")
+         inDomain == FLe(E.Tr, "1.65") /\ FLe(E.pr, "10") /\ (Has(E, "success_clause") => E.success_clause)
      IN /\ (inDomain => Report("C03.tp_state_found", <<E.file, E.index, E.Tr, E.pr, E.none, E.vapor, E.liquid, l>>,
                   E.none.ok /\ E.vapor.ok /\ E.liquid.ok))
         /\ Report("C03.pressure_met", <<E.file, E.index, E.Tr, E.pr, E.p_in, E.none, E.vapor, E.liquid, E.init, l>>,
@@ -98,7 +98,7 @@ Npt ==
         /\ ((distinct /\ gdiff /\ E.none.ok) =>
                Report("C03.no_hint_selects_lower_gibbs_energy", <<E.file, E.index, E.Tr, E.pr, E.none, E.vapor, E.liquid, l>>,
                       FClose(E.none.rho, stable.rho, "1e-8", FAbs(stable.rho), "0")))
-        /\ cnt' = BumpAll(cnt, {"npt_cells"} \cup (IF inDomain THEN {"npt_in_success_domain"} ELSE {}) \cup (IF distinct THEN {"npt_two_roots"} ELSE {}) \cup (IF E.init.ok THEN {"npt_init_ok"} ELSE {"npt_init_err"}))
+        /\ cnt' = BumpAll(cnt, {"npt_cells"} \cup (IF inDomain THEN {"npt_in_success_domain"} ELSE {}) \cup (IF distinct THEN {"npt_two_roots"} ELSE {}) \cup (IF Has(E, "x") THEN {"npt_mixture_cells"} ELSE {}) \cup (IF Has(E, "x") /\ distinct /\ gdiff THEN {"npt_mixture_two_roots_judged"} ELSE {}) \cup (IF E.init.ok THEN {"npt_init_ok"} ELSE {"npt_init_err"}))
 
 
 \* ---------------------------------------------------------------- density iteration, bound by hook H2
